@@ -38,11 +38,11 @@ def traceOf {w : Nat} (c : Ctx (List (BitVec w))) : String :=
   s!"{c.curlen}:{c.length.toNat}:{String.join (c.state.map hexWord)}:{if c.curlen = 0 then "-" else hexOf buffered}"
 
 /-- one object life in the model: result bytes and the trace -/
-def runClass {w : Nat} (P : Params (List (BitVec w))) (skipFirstTrace : Bool) (chunks : List Bytes) :
+def runClass {w : Nat} (P : Params (List (BitVec w))) (skipFirstTrace sv : Bool) (chunks : List Bytes) :
     Bytes × String :=
   let c0 := P.new (List.replicate P.blockSize 0xEE#8)
   let (c, tr) := chunks.foldl (fun (acc : Ctx (List (BitVec w)) × List String) ch =>
-      let c := process P acc.1 ch
+      let c := if sv then processSV P acc.1 ch else process P acc.1 ch
       (c, acc.2 ++ [traceOf c])) (c0, [traceOf c0])
   let tr := if skipFirstTrace then tr.drop 1 else tr
   ((finalize P c).1, ";".intercalate tr)
@@ -60,11 +60,12 @@ def digestLine (algo form : String) (sizes : List Nat) (msg : Bytes) : Option St
   if (pre = "ctor" || pre = "ctorsv") && chunks.isEmpty then none
   let chunks := if isFn then [msg] else chunks
   let skip := pre = "ctor" || pre = "ctorsv"
+  let sv := pre = "sv" || pre = "ctorsv" || pre = "fnsv"
   let (dig, tr, spec) ← match algo with
-    | "md5" => let r := runClass Model.MD5.params skip chunks; some (r.1, r.2, Spec.MD5.hash msg)
-    | "sha1" => let r := runClass Model.SHA1.params skip chunks; some (r.1, r.2, Spec.SHA1.hash msg)
-    | "sha256" => let r := runClass Model.SHA256.params skip chunks; some (r.1, r.2, Spec.SHA256.hash msg)
-    | "sha512" => let r := runClass Model.SHA512.params skip chunks; some (r.1, r.2, Spec.SHA512.hash msg)
+    | "md5" => let r := runClass Model.MD5.params skip sv chunks; some (r.1, r.2, Spec.MD5.hash msg)
+    | "sha1" => let r := runClass Model.SHA1.params skip sv chunks; some (r.1, r.2, Spec.SHA1.hash msg)
+    | "sha256" => let r := runClass Model.SHA256.params skip sv chunks; some (r.1, r.2, Spec.SHA256.hash msg)
+    | "sha512" => let r := runClass Model.SHA512.params skip sv chunks; some (r.1, r.2, Spec.SHA512.hash msg)
     | _ => none
   let res := if out = "hex" then Model.hexLower dig else if out = "HEX" then Model.hexUpper dig else hexOf dig
   pure s!"{res} | {if isFn then "-" else tr} # spec={hexOf spec}"
